@@ -1,6 +1,8 @@
 SPECIFICATION Spec
 CONSTANTS
   Thread = {1, 2, 3}
+  FnMarksDone = FALSE
+  DoneCheckFirst = FALSE
   FnUnderLock = TRUE
 INVARIANTS Inv_FnSerial Inv_ArgsAccumulate Inv_FinalResult
 PROPERTY Act_Frozen
